@@ -126,8 +126,16 @@ def compare(args: list[str]) -> tuple[bool, str, str]:
         except param.EmptyCartesianProduct:
             return True, "", "empty product for the documented composition as well"
         return False, "rejects a valid selection as empty", f"arguments {args}: reported an empty selection, the documented composition {want['tests_str']!r} selects tests"
+    def norm(v: Any) -> Any:
+        # restriction strings are compared line by line modulo surrounding / repeated blanks
+        if isinstance(v, str):
+            return [" ".join(line.split()) for line in v.splitlines() if line.strip()]
+        if isinstance(v, dict):
+            return {k: norm(x) if "\n" in str(x) or k.startswith("vm") else " ".join(str(x).split()) for k, x in v.items()}
+        return v
+
     for field in ("tests_str", "vm_strs", "param_dict", "vms"):
-        if got[field] != want[field]:
+        if norm(got[field]) != norm(want[field]):
             return False, f"wrong {field}", f"arguments {args}: {field} is {got[field]!r}, documented {want[field]!r}"
     return True, "", "as documented"
 
